@@ -22,6 +22,8 @@ tokens are `key=value`:
   skip=<k>                        the first k video items are a parameter-set prefix, not judged
   strict=1                        contain: additionally every frame must be a unit of the stream
   nofiller=1                      judge against the units without H.264 filler data (type 12)
+  noaudio=1                       do not judge the audio frames
+  nots=1                          compare bytes only (observations without RTP timestamps: FLV tags, TS frames)
   obs=<a>.<ts>.<pts>.<digest>,…   frames observed on the implementation (judge)
 -/
 import IpcHub.Drv.Util
@@ -232,6 +234,11 @@ def filterItem (keep : Bytes → Bool) : Item → Item
   | .agg ts m ns => .agg ts m (ns.filter keep)
   | .frag ts m n c => if keep n then .frag ts m n c else .agg ts m []
 
+def zeroTs (z : Bool) : Item → Item
+  | .single ts m n => .single (if z then 0 else ts) m n
+  | .agg ts m ns => .agg (if z then 0 else ts) m ns
+  | .frag ts m n c => .frag (if z then 0 else ts) m n c
+
 def wraps : List (UInt32 × Int) → Bool
   | (t1, _) :: (t2, p2) :: r => ((tsDiff t2 t1 > 0 && t2 < t1) || (tsDiff t2 t1 < 0 && t2 > t1)) || wraps ((t2, p2) :: r)
   | _ => false
@@ -246,11 +253,14 @@ def judgeOp (ts : List String) : String :=
     | some obs =>
       let vobs := obs.filter (!·.audio)
       let aobs := obs.filter (·.audio)
-      let vpairs := vobs.map (fun o => (o.ts, digBytes o.dig))
-      let apairs := aobs.map (fun o => (o.ts, digBytes o.dig))
+      -- nots=1: compare the bytes only (FLV tags / TS frames carry no RTP timestamp)
+      let nots := kv ts "nots" = some "1"
+      let zt (t : UInt32) : UInt32 := if nots then 0 else t
+      let vpairs := vobs.map (fun o => (zt o.ts, digBytes o.dig))
+      let apairs := aobs.map (fun o => (zt o.ts, digBytes o.dig))
       let nofiller := kv ts "nofiller" = some "1"
       let keep (n : Bytes) : Bool := !(nofiller && su.codec = .h264 && (match n with | b :: _ => (b &&& 0x1f) = 12 | [] => false))
-      let spAll := su.built.vspans.map (fun (it, p, n) => (digItem (filterItem keep it), p, n))
+      let spAll := su.built.vspans.map (fun (it, p, n) => (zeroTs nots (digItem (filterItem keep it)), p, n))
       let sp := spAll.drop (kvNat ts "skip" 0)
       let contain := kv ts "mode" = some "contain"
       let strict := kv ts "strict" = some "1"
@@ -268,10 +278,11 @@ def judgeOp (ts : List String) : String :=
       -- audio: every arriving AAC packet hands on its AUs, in arrival order
       let aexpect := su.order.flatMap (fun i =>
         match su.built.aspans.find? (fun (_, _, p) => p = i) with
-        | some (t, aus, _) => (aacUnits su.cfg.samplesPerFrame t aus).map (fun (t, a) => (t, digBytes (digest a)))
+        | some (t, aus, _) => (aacUnits su.cfg.samplesPerFrame t aus).map (fun (t, a) => (zt t, digBytes (digest a)))
         | none => [])
       let av : Verdict :=
-        if contain then (if isSubseq aexpect apairs then ⟨true, "ok", ""⟩ else ⟨false, "good-au-lost", ""⟩)
+        if kv ts "noaudio" = some "1" then ⟨true, "ok", ""⟩
+        else if contain then (if isSubseq aexpect apairs then ⟨true, "ok", ""⟩ else ⟨false, "good-au-lost", ""⟩)
         else if apairs == aexpect then ⟨true, "ok", ""⟩
         else ⟨false, "au-mismatch", s!"{apairs.length} audio frames, expected {aexpect.length}"⟩
       let tol : Int := 2
